@@ -7,12 +7,12 @@ Import ListNotations.
 
 Section Query.
 Variable key : id -> option str.
+Variable fold : id -> bool.
 Variable mt : str -> str -> bool.
 Variable ab : str -> bool.
-Hypothesis abs_eq : forall p v, ab p = true -> (mt p v = true <-> v = p).
 
-Notation any_match := (any_match key mt).
-Notation query := (query key mt ab).
+Notation any_match := (any_match key fold mt ab).
+Notation query := (query key fold mt ab).
 
 (* the candidates of a query: the children of the parents reached (those carrying the key, for
    get_instances) and the other elements reached *)
@@ -20,7 +20,7 @@ Definition is_cand (nk : bool) (parents : list ((str -> list id) * list id)) (ot
   (In e (cands parents) /\ keyok key nk e) \/ In e others.
 
 Definition parents_ok (nk : bool) (parents : list ((str -> list id) * list id)) : Prop :=
-  Forall (fun pr => parent_ok key mt ab nk (fst pr) (snd pr)) parents.
+  Forall (fun pr => parent_ok key fold mt ab nk (fst pr) (snd pr)) parents.
 
 Lemma good_pats_perm pats pats' : Permutation pats pats' -> good_pats ab pats -> good_pats ab pats'.
 Proof.
@@ -33,15 +33,15 @@ Theorem query_spec nk bk parents others pats :
   In e (query nk bk parents others pats) <-> is_cand nk parents others e /\ any_match pats e = true.
 Proof.
   intros Hok Hg e. unfold Filter.query, is_cand. rewrite in_app_iff.
-  pose proof (stageA_spec key mt ab nk parents pats Hok Hg [] e) as HA. cbn [In] in HA.
+  pose proof (stageA_spec key fold mt ab nk parents pats Hok Hg [] e) as HA. cbn [In] in HA.
   destruct bk.
-  - rewrite (stageB_found_spec key mt ab abs_eq), HA. split.
+  - rewrite (stageB_found_spec key fold mt ab), HA. split.
     + intros [H|H]; tauto.
     + intros [[H|H] Hm]; [left; tauto|].
       destruct (in_dec Nat.eq_dec e (stageA key mt ab nk parents pats [])) as [Hi|Hi].
       * left. apply HA. exact Hi.
       * right. tauto.
-  - rewrite (stageB_names_spec key mt ab abs_eq), HA. split.
+  - rewrite (stageB_names_spec key fold mt ab), HA. split.
     + intros [H|H]; tauto.
     + intros [[H|H] Hm]; [left; tauto|].
       destruct (in_dec Nat.eq_dec e (stageA key mt ab nk parents pats [])) as [Hi|Hi].
@@ -52,17 +52,17 @@ Qed.
 (* nothing is yielded twice *)
 Theorem query_NoDup nk bk parents others pats : NoDup (query nk bk parents others pats).
 Proof.
-  unfold Filter.query. apply NoDup_app_iff. split; [apply stageA_NoDup|]. destruct bk.
-  - split; [apply (stageB_found_NoDup key mt ab abs_eq)|].
-    intros x Hx Hb. apply (stageB_found_spec key mt ab abs_eq) in Hb. tauto.
-  - split; [apply (stageB_names_NoDup key mt ab abs_eq)|].
-    intros x Hx Hb. apply (stageB_names_spec key mt ab abs_eq) in Hb. tauto.
+  unfold Filter.query. apply NoDup_app_iff. split; [apply (stageA_NoDup key fold)|]. destruct bk.
+  - split; [apply (stageB_found_NoDup key fold mt ab)|].
+    intros x Hx Hb. apply (stageB_found_spec key fold mt ab) in Hb. tauto.
+  - split; [apply (stageB_names_NoDup key fold mt ab)|].
+    intros x Hx Hb. apply (stageB_names_spec key fold mt ab) in Hb. tauto.
 Qed.
 
 (* without stage-B elements (one root of the parent kind) nothing is yielded twice either *)
 Theorem query_NoDup_stageA nk bk parents pats : NoDup (query nk bk parents [] pats).
 Proof.
-  unfold Filter.query. destruct bk; cbn; rewrite app_nil_r; apply stageA_NoDup.
+  unfold Filter.query. destruct bk; cbn; rewrite app_nil_r; apply (stageA_NoDup key fold).
 Qed.
 
 (* the order of the patterns does not matter (as a set) *)
@@ -72,7 +72,7 @@ Theorem query_perm nk bk parents others pats pats' :
 Proof.
   intros Hok Hg Hp e. rewrite (query_spec nk bk parents others pats Hok Hg e).
   rewrite (query_spec nk bk parents others pats' Hok (good_pats_perm _ _ Hp Hg) e).
-  rewrite (any_match_perm key mt pats pats' e Hp). tauto.
+  rewrite (any_match_perm key fold mt ab pats pats' e Hp). tauto.
 Qed.
 
 (* the registered fast lookup and the linear scan of global_service.lookup give the same result
@@ -85,20 +85,20 @@ Proof.
 Qed.
 
 Definition with_scan (parents : list ((str -> list id) * list id)) : list ((str -> list id) * list id) :=
-  map (fun pr => (scan_lookup key (snd pr), snd pr)) parents.
+  map (fun pr => (scan_lookup key fold (snd pr), snd pr)) parents.
 
 Lemma lookup_ok_same_answers parents :
-  Forall (fun pr => lookup_ok key (fst pr) (snd pr)) parents -> Forall2 same_answers parents (with_scan parents).
+  Forall (fun pr => lookup_ok key fold (fst pr) (snd pr)) parents -> Forall2 same_answers parents (with_scan parents).
 Proof.
   induction 1 as [|[lk ch] rest H _ IH]; cbn; constructor; [|exact IH].
   split; [reflexivity|]. intro p. cbn. apply H.
 Qed.
 
 Lemma lookup_ok_parents_ok nk parents :
-  Forall (fun pr => lookup_ok key (fst pr) (snd pr)) parents -> parents_ok nk parents.
+  Forall (fun pr => lookup_ok key fold (fst pr) (snd pr)) parents -> parents_ok nk parents.
 Proof.
   unfold parents_ok. induction 1 as [|[lk ch] rest H1 _ IH]; constructor; [|exact IH].
-  cbn [fst snd] in *. apply (lookup_ok_parent_ok key mt ab abs_eq); assumption.
+  cbn [fst snd] in *. apply (lookup_ok_parent_ok key fold mt ab); assumption.
 Qed.
 
 End Query.
@@ -130,22 +130,22 @@ Definition w_pats : list str := [s2l "a"; s2l "a*"].
 
 (* the former witnesses of the duplicate yields (findings C13-K1, C13-K2), now yielded once:
    get_instances(instance, ['a', 'a*']) *)
-Lemma witness_found_once : run_query true false w_key true BFound [] [0] w_pats = [0].
+Lemma witness_found_once : run_query true false w_key (fun _ => false) true BFound [] [0] w_pats = [0].
 Proof. vm_compute. reflexivity. Qed.
 
 (* get_instances(instance, ['a*', 'a']) and (instance, ['a', 'a']) *)
 Lemma witness_found_once_rev :
-  run_query true false w_key true BFound [] [0] [s2l "a*"; s2l "a"] = [0] /\
-  run_query true false w_key true BFound [] [0] [s2l "a"; s2l "a"] = [0].
+  run_query true false w_key (fun _ => false) true BFound [] [0] [s2l "a*"; s2l "a"] = [0] /\
+  run_query true false w_key (fun _ => false) true BFound [] [0] [s2l "a"; s2l "a"] = [0].
 Proof. vm_compute. split; reflexivity. Qed.
 
 (* get_definitions / get_ports / get_cables (instance, ['a', 'a*']): the name is consumed *)
-Lemma witness_names_once : run_query true false w_key false BNames [] [0] w_pats = [0].
+Lemma witness_names_once : run_query true false w_key (fun _ => false) false BNames [] [0] w_pats = [0].
 Proof. vm_compute. reflexivity. Qed.
 
 (* get_instances([definition, instance-of-it], 'a*'): stage A finds the child, stage B leaves it alone *)
 Lemma witness_found_not_reiterated :
-  run_query true false w_key true BFound [(scan_lookup w_key [0], [0])] [0] [s2l "a*"] = [0].
+  run_query true false w_key (fun _ => false) true BFound [(scan_lookup w_key (fun _ => false) [0], [0])] [0] [s2l "a*"] = [0].
 Proof. vm_compute. reflexivity. Qed.
 
 (* a non-trivial input satisfying the hypotheses of query_spec / query_perm / query_fast_eq_scan:
@@ -155,7 +155,7 @@ Definition x_key (e : id) : option str :=
   | 1 => Some (s2l "a") | 2 => Some (s2l "ab") | 3 => Some (s2l "b") | 4 => Some (s2l "a[0]")
   | _ => None
   end.
-Definition x_parents : list ((str -> list id) * list id) := [(scan_lookup x_key [1; 2; 3], [1; 2; 3])].
+Definition x_parents : list ((str -> list id) * list id) := [(scan_lookup x_key (fun _ => false) [1; 2; 3], [1; 2; 3])].
 
 Example x_uniq : uniq_keys x_key [1; 2; 3].
 Proof.
@@ -165,70 +165,70 @@ Proof.
 Qed.
 
 Example x_hyps :
-  parents_ok x_key (matches_b true false) (absolute_b true false) false x_parents /\
+  parents_ok x_key (fun _ => false) (matches_b true false) (absolute_b true false) false x_parents /\
   good_pats (absolute_b true false) [s2l "a[0]"; s2l "a*"].
 Proof.
   split.
   - constructor; [|constructor]. cbn [fst snd].
-    apply (scan_lookup_ok x_key (matches_b true false) (absolute_b true false) (patterns_abs_eq true false)).
+    apply (scan_lookup_ok x_key (fun _ => false) (matches_b true false) (absolute_b true false)).
   - apply no_empty_good_pats. cbn. intros [H|[H|[]]]; discriminate.
 Qed.
 
 Example x_result :
-  run_query true false x_key false BNames x_parents [4; 2] [s2l "a[0]"; s2l "a*"] = [1; 2; 4].
+  run_query true false x_key (fun _ => false) false BNames x_parents [4; 2] [s2l "a[0]"; s2l "a*"] = [1; 2; 4].
 Proof. vm_compute. reflexivity. Qed.
 
 (* ------------------------------------------------------------------------------------------ *)
 (* the statements about the stages with patterns.py plugged in (run_query / run_netlists / run_hier) *)
 
-Definition lookups_ok (key : id -> option str) (parents : list ((str -> list id) * list id)) : Prop :=
-  Forall (fun pr => lookup_ok key (fst pr) (snd pr)) parents.
+Definition lookups_ok (key : id -> option str) (fold : id -> bool) (parents : list ((str -> list id) * list id)) : Prop :=
+  Forall (fun pr => lookup_ok key fold (fst pr) (snd pr)) parents.
 
-Definition sel_match (ic ir : bool) (key : id -> option str) (pats : list str) (e : id) : bool :=
-  any_match key (matches_b ic ir) pats e.
+Definition sel_match (ic ir : bool) (key : id -> option str) (fold : id -> bool) (pats : list str) (e : id) : bool :=
+  any_match key fold (matches_b ic ir) (absolute_b ic ir) pats e.
 
-Lemma lookups_ok_fst key parents : lookups_ok key parents ->
-  Forall (fun pr => lookup_ok key (fst pr) (snd pr)) parents.
+Lemma lookups_ok_fst key fold parents : lookups_ok key fold parents ->
+  Forall (fun pr => lookup_ok key fold (fst pr) (snd pr)) parents.
 Proof. intro H. exact H. Qed.
 
-Theorem run_query_spec ic ir key nk bk parents others pats :
-  lookups_ok key parents -> ~ In [] pats -> forall e,
-  In e (run_query ic ir key nk bk parents others pats) <->
-  is_cand key nk parents others e /\ sel_match ic ir key pats e = true.
+Theorem run_query_spec ic ir key fold nk bk parents others pats :
+  lookups_ok key fold parents -> ~ In [] pats -> forall e,
+  In e (run_query ic ir key fold nk bk parents others pats) <->
+  is_cand key nk parents others e /\ sel_match ic ir key fold pats e = true.
 Proof.
-  intros Hl Hp. apply (query_spec key _ _ (patterns_abs_eq ic ir)).
-  - apply (lookup_ok_parents_ok key _ _ (patterns_abs_eq ic ir)). exact Hl.
+  intros Hl Hp. apply (query_spec key fold (matches_b ic ir) (absolute_b ic ir)).
+  - apply (lookup_ok_parents_ok key fold (matches_b ic ir) (absolute_b ic ir)). exact Hl.
   - apply no_empty_good_pats, Hp.
 Qed.
 
-Theorem run_query_NoDup ic ir key nk bk parents others pats :
-  NoDup (run_query ic ir key nk bk parents others pats).
-Proof. apply (query_NoDup key _ _ (patterns_abs_eq ic ir)). Qed.
+Theorem run_query_NoDup ic ir key fold nk bk parents others pats :
+  NoDup (run_query ic ir key fold nk bk parents others pats).
+Proof. apply (query_NoDup key fold (matches_b ic ir) (absolute_b ic ir)). Qed.
 
-Theorem run_query_NoDup_stageA ic ir key nk bk parents pats :
-  NoDup (run_query ic ir key nk bk parents [] pats).
+Theorem run_query_NoDup_stageA ic ir key fold nk bk parents pats :
+  NoDup (run_query ic ir key fold nk bk parents [] pats).
 Proof. apply query_NoDup_stageA. Qed.
 
-Theorem run_query_perm ic ir key nk bk parents others pats pats' :
-  lookups_ok key parents -> ~ In [] pats -> Permutation pats pats' -> forall e,
-  In e (run_query ic ir key nk bk parents others pats) <-> In e (run_query ic ir key nk bk parents others pats').
+Theorem run_query_perm ic ir key fold nk bk parents others pats pats' :
+  lookups_ok key fold parents -> ~ In [] pats -> Permutation pats pats' -> forall e,
+  In e (run_query ic ir key fold nk bk parents others pats) <-> In e (run_query ic ir key fold nk bk parents others pats').
 Proof.
-  intros Hl Hp HP. apply (query_perm key _ _ (patterns_abs_eq ic ir)); [|apply no_empty_good_pats, Hp|exact HP].
-  apply (lookup_ok_parents_ok key _ _ (patterns_abs_eq ic ir)). exact Hl.
+  intros Hl Hp HP. apply (query_perm key fold (matches_b ic ir) (absolute_b ic ir)); [|apply no_empty_good_pats, Hp|exact HP].
+  apply (lookup_ok_parents_ok key fold (matches_b ic ir) (absolute_b ic ir)). exact Hl.
 Qed.
 
-Theorem run_query_fast_eq_scan ic ir key nk bk parents others pats :
-  lookups_ok key parents ->
-  run_query ic ir key nk bk parents others pats = run_query ic ir key nk bk (with_scan key parents) others pats.
+Theorem run_query_fast_eq_scan ic ir key fold nk bk parents others pats :
+  lookups_ok key fold parents ->
+  run_query ic ir key fold nk bk parents others pats = run_query ic ir key fold nk bk (with_scan key fold parents) others pats.
 Proof.
   intro Hl. apply query_fast_eq_scan. apply lookup_ok_same_answers, lookups_ok_fst, Hl.
 Qed.
 
-Theorem run_netlists_spec ic ir key objs pats : ~ In [] pats ->
-  NoDup (run_netlists ic ir key objs pats) /\
-  forall e, In e (run_netlists ic ir key objs pats) <-> In e objs /\ sel_match ic ir key pats e = true.
+Theorem run_netlists_spec ic ir key fold objs pats : ~ In [] pats ->
+  NoDup (run_netlists ic ir key fold objs pats) /\
+  forall e, In e (run_netlists ic ir key fold objs pats) <-> In e objs /\ sel_match ic ir key fold pats e = true.
 Proof.
-  intro Hp. apply (stageB_netlists_spec key _ _ (patterns_abs_eq ic ir)). apply no_empty_good_pats, Hp.
+  intro Hp. apply (stageB_netlists_spec key fold (matches_b ic ir) (absolute_b ic ir)). apply no_empty_good_pats, Hp.
 Qed.
 
 Theorem run_hier_spec ic ir hname refs in_yield pats : NoDup refs ->
@@ -240,18 +240,18 @@ Proof. apply (stageB_hier_spec _ _ (patterns_abs_eq ic ir)). Qed.
 (* the property at full strength on the two-stage queries: set equality with the filtered
    candidates, no duplicates, independence of the pattern order and of the lookup path *)
 Definition filter_full_statement : Prop :=
-  forall ic ir key nk bk parents others pats,
-    lookups_ok key parents -> ~ In [] pats ->
-    let r := run_query ic ir key nk bk parents others pats in
-    (forall e, In e r <-> is_cand key nk parents others e /\ sel_match ic ir key pats e = true) /\
+  forall ic ir key fold nk bk parents others pats,
+    lookups_ok key fold parents -> ~ In [] pats ->
+    let r := run_query ic ir key fold nk bk parents others pats in
+    (forall e, In e r <-> is_cand key nk parents others e /\ sel_match ic ir key fold pats e = true) /\
     NoDup r /\
     (forall pats', Permutation pats pats' -> forall e,
-        In e r <-> In e (run_query ic ir key nk bk parents others pats')) /\
-    r = run_query ic ir key nk bk (with_scan key parents) others pats.
+        In e r <-> In e (run_query ic ir key fold nk bk parents others pats')) /\
+    r = run_query ic ir key fold nk bk (with_scan key fold parents) others pats.
 
 Theorem filter_full : filter_full_statement.
 Proof.
-  intros ic ir key nk bk parents others pats Hl Hp r. unfold r. split; [|split; [|split]].
+  intros ic ir key fold nk bk parents others pats Hl Hp r. unfold r. split; [|split; [|split]].
   - apply run_query_spec; assumption.
   - apply run_query_NoDup.
   - intros pats' HP. apply run_query_perm; assumption.
@@ -259,7 +259,7 @@ Proof.
 Qed.
 
 (* the hypotheses of filter_full on a non-trivial input *)
-Example x_lookups_ok : lookups_ok x_key x_parents /\ ~ In [] [s2l "a[0]"; s2l "a*"].
+Example x_lookups_ok : lookups_ok x_key (fun _ => false) x_parents /\ ~ In [] [s2l "a[0]"; s2l "a*"].
 Proof.
   split.
   - constructor; [|constructor]. cbn [fst snd]. intro p. reflexivity.
@@ -275,7 +275,7 @@ Qed.
 Example x_netlists :
   ~ In [] [s2l "n1"; s2l "N*"] /\
   run_netlists false false (fun e => match e with 0 => Some (s2l "n1") | 1 => Some (s2l "n2") | _ => None end)
-               [0; 1; 0; 2] [s2l "n1"; s2l "N*"] = [0; 1].
+               (fun _ => false) [0; 1; 0; 2] [s2l "n1"; s2l "N*"] = [0; 1].
 Proof. split; [cbn; intros [H|[H|[]]]; discriminate|vm_compute; reflexivity]. Qed.
 
 Example x_hier :
@@ -286,3 +286,15 @@ Proof.
   split; [|vm_compute; reflexivity].
   repeat constructor; cbn; intuition discriminate.
 Qed.
+
+(* elements that compare case-insensitively (EDIF identifiers under the EDIF policy): 1 folds, 2 does not;
+   both carry "Foo"; the exact pattern FOO selects 1 only - in stage B and through the scan of a parent *)
+Definition f_key (e : id) : option str := match e with 1 | 2 => Some (s2l "Foo") | _ => None end.
+Definition f_fold (e : id) : bool := match e with 1 => true | _ => false end.
+
+Example x_fold :
+  run_query true false f_key f_fold false BNames [] [1; 2] [s2l "FOO"] = [1] /\
+  run_query true false f_key f_fold false BNames [(scan_lookup f_key f_fold [1; 2], [1; 2])] [] [s2l "FOO"] = [1] /\
+  run_query true false f_key f_fold true BFound [] [1; 2] [s2l "FOO"] = [1] /\
+  run_netlists true false f_key f_fold [1; 2] [s2l "FOO"] = [1].
+Proof. vm_compute. repeat split; reflexivity. Qed.
